@@ -8,7 +8,7 @@
 
 #![allow(clippy::missing_safety_doc)]
 
-use crate::atomic_point;
+use crate::{atomic_point, dbg_atomic};
 use std::sync::atomic::{fence, compiler_fence, AtomicU16, AtomicU32, AtomicU64, AtomicU8, Ordering};
 
 #[inline]
@@ -58,7 +58,9 @@ pub unsafe extern "C" fn __tsan_atomic_signal_fence(mo: i32) {
 #[no_mangle]
 pub unsafe extern "C" fn __tsan_atomic8_load(a: *const u8, mo: i32) -> u8 {
     atomic_point(a as usize);
-    (*(a as *const AtomicU8)).load(ord_load(mo))
+    let r = (*(a as *const AtomicU8)).load(ord_load(mo));
+    dbg_atomic("load", a as usize, r as u64);
+    r
 }
 #[no_mangle]
 pub unsafe extern "C" fn __tsan_atomic8_store(a: *mut u8, v: u8, mo: i32) {
@@ -68,14 +70,18 @@ pub unsafe extern "C" fn __tsan_atomic8_store(a: *mut u8, v: u8, mo: i32) {
 #[no_mangle]
 pub unsafe extern "C" fn __tsan_atomic8_exchange(a: *mut u8, v: u8, mo: i32) -> u8 {
     atomic_point(a as usize);
-    (*(a as *const AtomicU8)).swap(v, ord_rmw(mo))
+    let r = (*(a as *const AtomicU8)).swap(v, ord_rmw(mo));
+    dbg_atomic("exchange", a as usize, r as u64);
+    r
 }
 #[no_mangle]
 pub unsafe extern "C" fn __tsan_atomic8_compare_exchange_val(a: *mut u8, c: u8, v: u8, mo: i32, fmo: i32) -> u8 {
     atomic_point(a as usize);
-    match (*(a as *const AtomicU8)).compare_exchange(c, v, ord_rmw(mo), ord_load(fmo)) {
+    let r = match (*(a as *const AtomicU8)).compare_exchange(c, v, ord_rmw(mo), ord_load(fmo)) {
         Ok(o) | Err(o) => o,
-    }
+    };
+    dbg_atomic("cas", a as usize, r as u64);
+    r
 }
 #[no_mangle]
 pub unsafe extern "C" fn __tsan_atomic8_compare_exchange_strong(a: *mut u8, c: *mut u8, v: u8, mo: i32, fmo: i32) -> i32 {
@@ -95,38 +101,52 @@ pub unsafe extern "C" fn __tsan_atomic8_compare_exchange_weak(a: *mut u8, c: *mu
 #[no_mangle]
 pub unsafe extern "C" fn __tsan_atomic8_fetch_add(a: *mut u8, v: u8, mo: i32) -> u8 {
     atomic_point(a as usize);
-    (*(a as *const AtomicU8)).fetch_add(v, ord_rmw(mo))
+    let r = (*(a as *const AtomicU8)).fetch_add(v, ord_rmw(mo));
+    dbg_atomic("fetch_add", a as usize, r as u64);
+    r
 }
 #[no_mangle]
 pub unsafe extern "C" fn __tsan_atomic8_fetch_sub(a: *mut u8, v: u8, mo: i32) -> u8 {
     atomic_point(a as usize);
-    (*(a as *const AtomicU8)).fetch_sub(v, ord_rmw(mo))
+    let r = (*(a as *const AtomicU8)).fetch_sub(v, ord_rmw(mo));
+    dbg_atomic("fetch_sub", a as usize, r as u64);
+    r
 }
 #[no_mangle]
 pub unsafe extern "C" fn __tsan_atomic8_fetch_and(a: *mut u8, v: u8, mo: i32) -> u8 {
     atomic_point(a as usize);
-    (*(a as *const AtomicU8)).fetch_and(v, ord_rmw(mo))
+    let r = (*(a as *const AtomicU8)).fetch_and(v, ord_rmw(mo));
+    dbg_atomic("fetch_and", a as usize, r as u64);
+    r
 }
 #[no_mangle]
 pub unsafe extern "C" fn __tsan_atomic8_fetch_or(a: *mut u8, v: u8, mo: i32) -> u8 {
     atomic_point(a as usize);
-    (*(a as *const AtomicU8)).fetch_or(v, ord_rmw(mo))
+    let r = (*(a as *const AtomicU8)).fetch_or(v, ord_rmw(mo));
+    dbg_atomic("fetch_or", a as usize, r as u64);
+    r
 }
 #[no_mangle]
 pub unsafe extern "C" fn __tsan_atomic8_fetch_xor(a: *mut u8, v: u8, mo: i32) -> u8 {
     atomic_point(a as usize);
-    (*(a as *const AtomicU8)).fetch_xor(v, ord_rmw(mo))
+    let r = (*(a as *const AtomicU8)).fetch_xor(v, ord_rmw(mo));
+    dbg_atomic("fetch_xor", a as usize, r as u64);
+    r
 }
 #[no_mangle]
 pub unsafe extern "C" fn __tsan_atomic8_fetch_nand(a: *mut u8, v: u8, mo: i32) -> u8 {
     atomic_point(a as usize);
-    (*(a as *const AtomicU8)).fetch_nand(v, ord_rmw(mo))
+    let r = (*(a as *const AtomicU8)).fetch_nand(v, ord_rmw(mo));
+    dbg_atomic("fetch_nand", a as usize, r as u64);
+    r
 }
 
 #[no_mangle]
 pub unsafe extern "C" fn __tsan_atomic16_load(a: *const u16, mo: i32) -> u16 {
     atomic_point(a as usize);
-    (*(a as *const AtomicU16)).load(ord_load(mo))
+    let r = (*(a as *const AtomicU16)).load(ord_load(mo));
+    dbg_atomic("load", a as usize, r as u64);
+    r
 }
 #[no_mangle]
 pub unsafe extern "C" fn __tsan_atomic16_store(a: *mut u16, v: u16, mo: i32) {
@@ -136,14 +156,18 @@ pub unsafe extern "C" fn __tsan_atomic16_store(a: *mut u16, v: u16, mo: i32) {
 #[no_mangle]
 pub unsafe extern "C" fn __tsan_atomic16_exchange(a: *mut u16, v: u16, mo: i32) -> u16 {
     atomic_point(a as usize);
-    (*(a as *const AtomicU16)).swap(v, ord_rmw(mo))
+    let r = (*(a as *const AtomicU16)).swap(v, ord_rmw(mo));
+    dbg_atomic("exchange", a as usize, r as u64);
+    r
 }
 #[no_mangle]
 pub unsafe extern "C" fn __tsan_atomic16_compare_exchange_val(a: *mut u16, c: u16, v: u16, mo: i32, fmo: i32) -> u16 {
     atomic_point(a as usize);
-    match (*(a as *const AtomicU16)).compare_exchange(c, v, ord_rmw(mo), ord_load(fmo)) {
+    let r = match (*(a as *const AtomicU16)).compare_exchange(c, v, ord_rmw(mo), ord_load(fmo)) {
         Ok(o) | Err(o) => o,
-    }
+    };
+    dbg_atomic("cas", a as usize, r as u64);
+    r
 }
 #[no_mangle]
 pub unsafe extern "C" fn __tsan_atomic16_compare_exchange_strong(a: *mut u16, c: *mut u16, v: u16, mo: i32, fmo: i32) -> i32 {
@@ -163,38 +187,52 @@ pub unsafe extern "C" fn __tsan_atomic16_compare_exchange_weak(a: *mut u16, c: *
 #[no_mangle]
 pub unsafe extern "C" fn __tsan_atomic16_fetch_add(a: *mut u16, v: u16, mo: i32) -> u16 {
     atomic_point(a as usize);
-    (*(a as *const AtomicU16)).fetch_add(v, ord_rmw(mo))
+    let r = (*(a as *const AtomicU16)).fetch_add(v, ord_rmw(mo));
+    dbg_atomic("fetch_add", a as usize, r as u64);
+    r
 }
 #[no_mangle]
 pub unsafe extern "C" fn __tsan_atomic16_fetch_sub(a: *mut u16, v: u16, mo: i32) -> u16 {
     atomic_point(a as usize);
-    (*(a as *const AtomicU16)).fetch_sub(v, ord_rmw(mo))
+    let r = (*(a as *const AtomicU16)).fetch_sub(v, ord_rmw(mo));
+    dbg_atomic("fetch_sub", a as usize, r as u64);
+    r
 }
 #[no_mangle]
 pub unsafe extern "C" fn __tsan_atomic16_fetch_and(a: *mut u16, v: u16, mo: i32) -> u16 {
     atomic_point(a as usize);
-    (*(a as *const AtomicU16)).fetch_and(v, ord_rmw(mo))
+    let r = (*(a as *const AtomicU16)).fetch_and(v, ord_rmw(mo));
+    dbg_atomic("fetch_and", a as usize, r as u64);
+    r
 }
 #[no_mangle]
 pub unsafe extern "C" fn __tsan_atomic16_fetch_or(a: *mut u16, v: u16, mo: i32) -> u16 {
     atomic_point(a as usize);
-    (*(a as *const AtomicU16)).fetch_or(v, ord_rmw(mo))
+    let r = (*(a as *const AtomicU16)).fetch_or(v, ord_rmw(mo));
+    dbg_atomic("fetch_or", a as usize, r as u64);
+    r
 }
 #[no_mangle]
 pub unsafe extern "C" fn __tsan_atomic16_fetch_xor(a: *mut u16, v: u16, mo: i32) -> u16 {
     atomic_point(a as usize);
-    (*(a as *const AtomicU16)).fetch_xor(v, ord_rmw(mo))
+    let r = (*(a as *const AtomicU16)).fetch_xor(v, ord_rmw(mo));
+    dbg_atomic("fetch_xor", a as usize, r as u64);
+    r
 }
 #[no_mangle]
 pub unsafe extern "C" fn __tsan_atomic16_fetch_nand(a: *mut u16, v: u16, mo: i32) -> u16 {
     atomic_point(a as usize);
-    (*(a as *const AtomicU16)).fetch_nand(v, ord_rmw(mo))
+    let r = (*(a as *const AtomicU16)).fetch_nand(v, ord_rmw(mo));
+    dbg_atomic("fetch_nand", a as usize, r as u64);
+    r
 }
 
 #[no_mangle]
 pub unsafe extern "C" fn __tsan_atomic32_load(a: *const u32, mo: i32) -> u32 {
     atomic_point(a as usize);
-    (*(a as *const AtomicU32)).load(ord_load(mo))
+    let r = (*(a as *const AtomicU32)).load(ord_load(mo));
+    dbg_atomic("load", a as usize, r as u64);
+    r
 }
 #[no_mangle]
 pub unsafe extern "C" fn __tsan_atomic32_store(a: *mut u32, v: u32, mo: i32) {
@@ -204,14 +242,18 @@ pub unsafe extern "C" fn __tsan_atomic32_store(a: *mut u32, v: u32, mo: i32) {
 #[no_mangle]
 pub unsafe extern "C" fn __tsan_atomic32_exchange(a: *mut u32, v: u32, mo: i32) -> u32 {
     atomic_point(a as usize);
-    (*(a as *const AtomicU32)).swap(v, ord_rmw(mo))
+    let r = (*(a as *const AtomicU32)).swap(v, ord_rmw(mo));
+    dbg_atomic("exchange", a as usize, r as u64);
+    r
 }
 #[no_mangle]
 pub unsafe extern "C" fn __tsan_atomic32_compare_exchange_val(a: *mut u32, c: u32, v: u32, mo: i32, fmo: i32) -> u32 {
     atomic_point(a as usize);
-    match (*(a as *const AtomicU32)).compare_exchange(c, v, ord_rmw(mo), ord_load(fmo)) {
+    let r = match (*(a as *const AtomicU32)).compare_exchange(c, v, ord_rmw(mo), ord_load(fmo)) {
         Ok(o) | Err(o) => o,
-    }
+    };
+    dbg_atomic("cas", a as usize, r as u64);
+    r
 }
 #[no_mangle]
 pub unsafe extern "C" fn __tsan_atomic32_compare_exchange_strong(a: *mut u32, c: *mut u32, v: u32, mo: i32, fmo: i32) -> i32 {
@@ -231,38 +273,52 @@ pub unsafe extern "C" fn __tsan_atomic32_compare_exchange_weak(a: *mut u32, c: *
 #[no_mangle]
 pub unsafe extern "C" fn __tsan_atomic32_fetch_add(a: *mut u32, v: u32, mo: i32) -> u32 {
     atomic_point(a as usize);
-    (*(a as *const AtomicU32)).fetch_add(v, ord_rmw(mo))
+    let r = (*(a as *const AtomicU32)).fetch_add(v, ord_rmw(mo));
+    dbg_atomic("fetch_add", a as usize, r as u64);
+    r
 }
 #[no_mangle]
 pub unsafe extern "C" fn __tsan_atomic32_fetch_sub(a: *mut u32, v: u32, mo: i32) -> u32 {
     atomic_point(a as usize);
-    (*(a as *const AtomicU32)).fetch_sub(v, ord_rmw(mo))
+    let r = (*(a as *const AtomicU32)).fetch_sub(v, ord_rmw(mo));
+    dbg_atomic("fetch_sub", a as usize, r as u64);
+    r
 }
 #[no_mangle]
 pub unsafe extern "C" fn __tsan_atomic32_fetch_and(a: *mut u32, v: u32, mo: i32) -> u32 {
     atomic_point(a as usize);
-    (*(a as *const AtomicU32)).fetch_and(v, ord_rmw(mo))
+    let r = (*(a as *const AtomicU32)).fetch_and(v, ord_rmw(mo));
+    dbg_atomic("fetch_and", a as usize, r as u64);
+    r
 }
 #[no_mangle]
 pub unsafe extern "C" fn __tsan_atomic32_fetch_or(a: *mut u32, v: u32, mo: i32) -> u32 {
     atomic_point(a as usize);
-    (*(a as *const AtomicU32)).fetch_or(v, ord_rmw(mo))
+    let r = (*(a as *const AtomicU32)).fetch_or(v, ord_rmw(mo));
+    dbg_atomic("fetch_or", a as usize, r as u64);
+    r
 }
 #[no_mangle]
 pub unsafe extern "C" fn __tsan_atomic32_fetch_xor(a: *mut u32, v: u32, mo: i32) -> u32 {
     atomic_point(a as usize);
-    (*(a as *const AtomicU32)).fetch_xor(v, ord_rmw(mo))
+    let r = (*(a as *const AtomicU32)).fetch_xor(v, ord_rmw(mo));
+    dbg_atomic("fetch_xor", a as usize, r as u64);
+    r
 }
 #[no_mangle]
 pub unsafe extern "C" fn __tsan_atomic32_fetch_nand(a: *mut u32, v: u32, mo: i32) -> u32 {
     atomic_point(a as usize);
-    (*(a as *const AtomicU32)).fetch_nand(v, ord_rmw(mo))
+    let r = (*(a as *const AtomicU32)).fetch_nand(v, ord_rmw(mo));
+    dbg_atomic("fetch_nand", a as usize, r as u64);
+    r
 }
 
 #[no_mangle]
 pub unsafe extern "C" fn __tsan_atomic64_load(a: *const u64, mo: i32) -> u64 {
     atomic_point(a as usize);
-    (*(a as *const AtomicU64)).load(ord_load(mo))
+    let r = (*(a as *const AtomicU64)).load(ord_load(mo));
+    dbg_atomic("load", a as usize, r as u64);
+    r
 }
 #[no_mangle]
 pub unsafe extern "C" fn __tsan_atomic64_store(a: *mut u64, v: u64, mo: i32) {
@@ -272,14 +328,18 @@ pub unsafe extern "C" fn __tsan_atomic64_store(a: *mut u64, v: u64, mo: i32) {
 #[no_mangle]
 pub unsafe extern "C" fn __tsan_atomic64_exchange(a: *mut u64, v: u64, mo: i32) -> u64 {
     atomic_point(a as usize);
-    (*(a as *const AtomicU64)).swap(v, ord_rmw(mo))
+    let r = (*(a as *const AtomicU64)).swap(v, ord_rmw(mo));
+    dbg_atomic("exchange", a as usize, r as u64);
+    r
 }
 #[no_mangle]
 pub unsafe extern "C" fn __tsan_atomic64_compare_exchange_val(a: *mut u64, c: u64, v: u64, mo: i32, fmo: i32) -> u64 {
     atomic_point(a as usize);
-    match (*(a as *const AtomicU64)).compare_exchange(c, v, ord_rmw(mo), ord_load(fmo)) {
+    let r = match (*(a as *const AtomicU64)).compare_exchange(c, v, ord_rmw(mo), ord_load(fmo)) {
         Ok(o) | Err(o) => o,
-    }
+    };
+    dbg_atomic("cas", a as usize, r as u64);
+    r
 }
 #[no_mangle]
 pub unsafe extern "C" fn __tsan_atomic64_compare_exchange_strong(a: *mut u64, c: *mut u64, v: u64, mo: i32, fmo: i32) -> i32 {
@@ -299,30 +359,42 @@ pub unsafe extern "C" fn __tsan_atomic64_compare_exchange_weak(a: *mut u64, c: *
 #[no_mangle]
 pub unsafe extern "C" fn __tsan_atomic64_fetch_add(a: *mut u64, v: u64, mo: i32) -> u64 {
     atomic_point(a as usize);
-    (*(a as *const AtomicU64)).fetch_add(v, ord_rmw(mo))
+    let r = (*(a as *const AtomicU64)).fetch_add(v, ord_rmw(mo));
+    dbg_atomic("fetch_add", a as usize, r as u64);
+    r
 }
 #[no_mangle]
 pub unsafe extern "C" fn __tsan_atomic64_fetch_sub(a: *mut u64, v: u64, mo: i32) -> u64 {
     atomic_point(a as usize);
-    (*(a as *const AtomicU64)).fetch_sub(v, ord_rmw(mo))
+    let r = (*(a as *const AtomicU64)).fetch_sub(v, ord_rmw(mo));
+    dbg_atomic("fetch_sub", a as usize, r as u64);
+    r
 }
 #[no_mangle]
 pub unsafe extern "C" fn __tsan_atomic64_fetch_and(a: *mut u64, v: u64, mo: i32) -> u64 {
     atomic_point(a as usize);
-    (*(a as *const AtomicU64)).fetch_and(v, ord_rmw(mo))
+    let r = (*(a as *const AtomicU64)).fetch_and(v, ord_rmw(mo));
+    dbg_atomic("fetch_and", a as usize, r as u64);
+    r
 }
 #[no_mangle]
 pub unsafe extern "C" fn __tsan_atomic64_fetch_or(a: *mut u64, v: u64, mo: i32) -> u64 {
     atomic_point(a as usize);
-    (*(a as *const AtomicU64)).fetch_or(v, ord_rmw(mo))
+    let r = (*(a as *const AtomicU64)).fetch_or(v, ord_rmw(mo));
+    dbg_atomic("fetch_or", a as usize, r as u64);
+    r
 }
 #[no_mangle]
 pub unsafe extern "C" fn __tsan_atomic64_fetch_xor(a: *mut u64, v: u64, mo: i32) -> u64 {
     atomic_point(a as usize);
-    (*(a as *const AtomicU64)).fetch_xor(v, ord_rmw(mo))
+    let r = (*(a as *const AtomicU64)).fetch_xor(v, ord_rmw(mo));
+    dbg_atomic("fetch_xor", a as usize, r as u64);
+    r
 }
 #[no_mangle]
 pub unsafe extern "C" fn __tsan_atomic64_fetch_nand(a: *mut u64, v: u64, mo: i32) -> u64 {
     atomic_point(a as usize);
-    (*(a as *const AtomicU64)).fetch_nand(v, ord_rmw(mo))
+    let r = (*(a as *const AtomicU64)).fetch_nand(v, ord_rmw(mo));
+    dbg_atomic("fetch_nand", a as usize, r as u64);
+    r
 }
